@@ -3,7 +3,6 @@ package run
 import (
 	"bytes"
 	"encoding/json"
-	"fmt"
 	"io"
 	"runtime/debug"
 
@@ -37,7 +36,7 @@ func DriveStub(w *world.World, rd io.Reader, disableTransformCache bool, o Opts)
 	tr = &Transcript{}
 	defer func() {
 		if r := recover(); r != nil {
-			tr.Entries = append(tr.Entries, Entry{Class: ClsPanic, Err: fmt.Sprint(r), Stack: string(debug.Stack())})
+			tr.Entries = append(tr.Entries, Entry{Class: ClsPanic, Err: SafeSprint(r), Stack: string(debug.Stack())})
 		}
 	}()
 	var h header.Header
@@ -114,7 +113,11 @@ func DriveStub(w *world.World, rd io.Reader, disableTransformCache bool, o Opts)
 			} else {
 				b, merr := json.Marshal(res)
 				if merr != nil {
+					// (the library asks the reader whether an error is continuable, for this one as well)
 					e = Entry{Class: ClsFatal, Err: merr.Error()}
+					if reader.IsContinuableError(merr) {
+						e.Class = ClsContinuable
+					}
 				} else {
 					e = Entry{Class: ClsRecord, Out: string(b), RawJSON: idr.JSONify2(n)}
 					e.Checksum, _ = customfuncs.UUIDv3(nil, e.RawJSON)
